@@ -52,6 +52,12 @@ def run(ctx) -> None:
     from . import c03
 
     ctx.reuse("C02.funnel", c03.check_before_emit)
+    # the EVO script commands book exactly the requested wells/volumes (not a rounded or re-derived copy): the limits are
+    # checked against what the command pipettes
+    from . import c13
+
+    for name_, track_ in (("evo_aspirate", "remove"), ("evo_dispense", "add")):
+        ctx.reuse("C02.funnel", c13.same_args, name_, track_)
     ctx.guard("C02.exception-total", exception_total)
 
 
